@@ -106,6 +106,7 @@ class RunBundler:
         self._sequence_counters: dict[Any, int] = dict()  # noqa: C408
         self._sequence_counters_copy: dict[Any, int] = dict()  # for if we redo data-points  # noqa: C408
         self._bundled_streams: set[Any] = set()  # streams filled by create/read/save (the only ones re-taken)
+        self._sequence_counters_high: dict[Any, int] = dict()  # highest counter reached before a rewind  # noqa: C408
         self._monitor_params: dict[Subscribable, tuple[Callback, dict]] = dict()  # noqa: C408  # cache of {obj: (cb, kwargs)}
         # a cache of stream_resource uid to the data_keys that stream_resource collects for
         self._stream_resource_data_keys: dict[str, Iterable[str]] = dict()  # noqa: C408
@@ -186,6 +187,10 @@ class RunBundler:
             reason = ""
 
         exit_status: Literal["success", "abort", "fail"] = msg.kwargs.get("exit_status", "success") or "success"
+        # Events emitted before a rewind count even if the run ends before they are re-taken.
+        for key, counter in self._sequence_counters_high.items():
+            if self._sequence_counters.get(key, 0) < counter:
+                self._sequence_counters[key] = counter
         doc = self._compose_stop(
             exit_status=exit_status,
             reason=reason,
@@ -487,6 +492,9 @@ class RunBundler:
         # Monitor updates, interruption records and collected documents are never
         # replayed, so their counters must keep counting.
         for desc_key in self._bundled_streams:
+            counter = self._sequence_counters.get(desc_key, 1)
+            if counter > self._sequence_counters_high.get(desc_key, 0):
+                self._sequence_counters_high[desc_key] = counter
             # streams we roll back to the very beginning of restart at 1
             self._sequence_counters[desc_key] = self._sequence_counters_copy.get(desc_key, 1)
 
